@@ -20,6 +20,9 @@ Histories (messages / time-outs / working-set updates interleaved with calculati
 code on every calculation, and none-iff + formula against a Python tracker of "latest message since it last stopped
 working".  A small stream runs the REAL `SendOnUpdate` objects with their asyncio tasks (async_solipsism loop, mocked
 API channels as in the repo's tests) and requires the streamed samples to equal the model's.
+Stream histories: every battery keeps sending, ONE metric of one battery changes by a tiny relative amount per sample
+(1e-7 … 1 ulp; long drifts of 5e-7 … 1e-8 per sample over hundreds of samples); after every read sample the value
+STREAMED by the real `SendOnUpdate` must be the documented aggregate of the latest data (oracle only).
 Correspondence: every script through `Drivers/PoolSoc.lean`, outputs compared exactly.
 """
 from __future__ import annotations
@@ -39,7 +42,10 @@ RULE = ("pool snapshots of 1-5 batteries: capacity from {0, 2^-40, 2^-20, 1/2, 1
         "limits from {0,10,20,50,80,90,100} (equal 15%, nearly equal 7%), SoC on/around the limits, 10% no message, 15% "
         "NaN metrics, working subsets, 25% tiny-capacity pools around the 1e-9 tolerance; each snapshot re-run with a "
         "raised SoC, scaled capacities (k in {2,1/2,3,1000,2^20,2^-20}) and scrambled non-qualifying batteries; plus "
-        "histories of 3-14 events (data / time-out / working-set update / calc).  non-trivial = >= 2 qualifying "
+        "histories of 3-14 events (data / time-out / working-set update / calc); plus histories through the real "
+        "SendOnUpdate(SoCCalculator / CapacityCalculator) tasks: one metric of one battery changes by 1e-7 … 1e-12 / 1 ulp "
+        "per sample (3-7 samples) or by 5e-7 / 1e-7 / 1e-8 per sample over 200-600 samples, the streamed value must be the "
+        "documented aggregate of the latest data after every read sample.  non-trivial = >= 2 qualifying "
         "batteries with different weights or an edge (equal limits, SoC outside limits, tolerance crossing); distinct by "
         "canonical JSON hash")
 
@@ -302,12 +308,47 @@ def check_fullstack(ctx: Ctx, snap: dict, new_working: list[int], scripts: list,
     ctx.case(case, tags=["full-stack SendOnUpdate (asyncio tasks, mock API channels)"], nontrivial=True)
 
 
+def check_stream(ctx: Ctx, hist: dict, only_last: bool = False) -> None:
+    """A history through the real `SendOnUpdate` + `SoCCalculator` / `CapacityCalculator` (asyncio tasks, virtual clock):
+    after every read sample the STREAMED pool SoC / capacity must be the documented aggregate of the LATEST data of
+    every battery (none-iff, formula, range — exact rationals).  Oracle only: the streamed sample's timestamp is that of
+    the last recalculation, which the synchronous scripts of the model do not describe."""
+    streamed = g.run_c18_stream(hist)
+    reads = list(hist.get("read", range(len(hist["steps"]))))
+    n = len(hist["steps"])
+    for j, (k, res) in enumerate(zip(reads, streamed)):
+        if only_last and j != len(reads) - 1:
+            continue
+        case = {"stream": {**hist, "steps": hist["steps"][:k + 1], "read": [r for r in reads if r <= k]}}
+        view = {"bats": [{"has": True, "ts": 100 * (k + 1) + d["id"] % 50, **d} for d in hist["steps"][k]],
+                "working": list(hist["working"])}
+        try:
+            soc, cap = value_of(res["soc"]), value_of(res["cap"])
+        except Crashed as e:
+            ctx.violation("stream-broken", case, {"sample": k, "observed": str(e)})
+            continue
+        check_values(ctx, case, qualifying(view), qualifying(view, ("capacity", "lo", "hi")), soc, cap, label="@stream")
+        tags = ["stream history (real SendOnUpdate)"]
+        if k > 0:
+            prev, cur = hist["steps"][k - 1], hist["steps"][k]
+            rel = [abs(Fraction(c[x]) - Fraction(p[x])) / abs(Fraction(p[x])) for p, c in zip(prev, cur)
+                   for x in ("capacity", "lo", "hi", "soc") if p[x] != c[x] and Fraction(p[x]) != 0]
+            if rel and max(rel) < Fraction(1, 10**6):
+                tags.append("stream:change<=1e-6-relative-per-sample")
+        if n >= 100:
+            tags.append("stream:long-history(>=100 samples)")
+        ctx.case(case, tags=tags, nontrivial=k > 0)
+
+
 def load_corpus() -> list[dict]:
     d = pathlib.Path(__file__).resolve().parent.parent / "corpus" / "C18"
     return [json.loads(p.read_text()) for p in sorted(d.glob("*.json"))] if d.exists() else []
 
 
 def run_case_json(ctx: Ctx, case: dict, rng: random.Random, scripts: list, outs: list) -> None:
+    if "stream" in case:  # the last read sample of a history through the real SendOnUpdate objects
+        check_stream(ctx, case["stream"], only_last=True)
+        return
     if "snapshot" in case:
         check_snapshot(ctx, case["snapshot"], rng, scripts, outs)
     elif "script" in case:
@@ -349,6 +390,11 @@ def run(ctx: Ctx) -> None:
         rng = ctx.subrng("fullstack", i)
         snap = g.gen_c18_static(rng)
         check_fullstack(ctx, snap, [d["id"] for d in snap["bats"] if rng.random() < 0.7], scripts, outs)
+    # histories through the real SendOnUpdate objects: tiny relative changes of one metric per sample, long slow drifts
+    for i in range(ctx.budget(30, 400)):
+        check_stream(ctx, g.gen_c18_history(ctx.subrng("stream-tiny", i)))
+    for i in range(ctx.budget(3, 20)):
+        check_stream(ctx, g.gen_c18_history(ctx.subrng("stream-long", i), long=True))
     if ctx.tier == "thorough":
         # bounded-exhaustive small scope: two batteries, every combination of capacity / limits / SoC position /
         # presence from a small lattice (both working), with the metamorphic re-runs of every snapshot
@@ -384,7 +430,7 @@ def replay(ctx: Ctx, data: dict) -> None:
         case = {"snapshot": case["snapshot"], "scale": case["factor"]}
     if "raised" in case:
         case = {"snapshot": case["snapshot"]}
-    if not ("snapshot" in case or "script" in case):
+    if not ("snapshot" in case or "script" in case or "stream" in case):
         return run(ctx)
     scripts: list[dict] = []
     outs: list[dict] = []
